@@ -12,17 +12,16 @@ package sqlittle
 //@ macro OPFRAME() = true
 
 //@ func (*db.Database).Schema
-//@   props C06 C10
-//@   trusted schema construction is specified under C10
-//@   modifies * -M:S_db_KeyCol -M:S_sqlittle_columnIndex hdr_valid hdr_ps hdr_cookie jr_pos peer_state
+//@   props C06 C10 C05
+//@   modifies * -M:S_db_KeyCol -M:S_sqlittle_columnIndex hdr_valid hdr_ps hdr_cookie jr_pos peer_state created
 //@   requires db != nil
 //@   requires [locked] lk_shared
-//@   trusted-ensures err == nil ==> r0 != nil
+//@   ensures err == nil ==> r0 != nil
 
 //@ func (*db.Schema).NamedIndex
-//@   props C10
-//@   trusted
+//@   props C10 C05
 //@   pure
+//@   requires st != nil
 
 //@ type-invariant sqlittle.DB = self.db != nil
 
@@ -122,17 +121,42 @@ package sqlittle
 //@   requires [viaindex] !direct && ixmode && viaidx ==> VIAROW(cbrow)
 //@   ensures pos == old(pos) + 1 && !halt
 
+// Column resolution: every requested name is the rowid alias or a column of the schema, with a
+// non-negative position in the stored record.
 //@ func sqlittle.toColumnIndexRowid
-//@   props C01
-//@   trusted column resolution (strings) pending
-//@   pure
-//@   trusted-ensures err == nil ==> CIS_OK(r0)
+//@   props C01 C10 C05
+//@   modifies alloc M:S_sqlittle_columnIndex
+//@   requires s != nil
+//@   ensures [ok] err == nil ==> CIS_OK(r0)
+//@   loop 1 invariant forall qc int :: 0 <= qc && qc < len(res) ==> res[qc].rowid || (res[qc].col != nil && res[qc].rowIndex >= 0)
 
 //@ func sqlittle.toColumnIndexNonRowid
-//@   props C01
-//@   trusted column resolution (strings) pending
-//@   pure
-//@   trusted-ensures err == nil ==> CIS_OK(r0)
+//@   props C01 C10 C05
+//@   modifies alloc M:S_sqlittle_columnIndex M:bv64 M:Str
+//@   requires s != nil && s.WithoutRowid
+//@   ensures [ok] err == nil ==> CIS_OK(r0)
+//@   loop 1 invariant forall qc int :: 0 <= qc && qc < len(res) ==> res[qc].rowid || (res[qc].col != nil && res[qc].rowIndex >= 0)
+
+// columnStoreOrder (WITHOUT ROWID): position of every column in the stored record: primary-key columns
+// first, in primary-key order, matched by name ignoring case.
+//@ macro PKFIRST(schema, i, k) = 0 <= i && i < len(schema.Columns) && 0 <= k && k < len(schema.PK) && streq(str_lower(schema.PK[k].Column), str_lower(schema.Columns[i].Column)) && (forall qm int :: 0 <= qm && qm < k ==> !streq(str_lower(schema.PK[qm].Column), str_lower(schema.Columns[i].Column)))
+//@ func sqlittle.columnStoreOrder
+//@   props C10 C05
+//@   modifies alloc M:bv64 M:Str
+//@   requires schema != nil && schema.WithoutRowid
+//@   ensures [len] len(result) == len(schema.Columns)
+//@   ensures [nonneg] forall i int :: 0 <= i && i < len(result) ==> result[i] >= 0
+//@   ensures [pkfirst] forall i int :: 0 <= i && i < len(schema.Columns) ==> (forall k int :: PKFIRST(schema, i, k) ==> result[i] == k)
+//@   loop 1 invariant len(cols) == $i
+//@   loop 1 invariant forall k int :: 0 <= k && k < $i ==> str_lower(schema.PK[k].Column) == cols[k]
+//@   loop 2 invariant len(cols) >= len(schema.PK)
+//@   loop 2 invariant forall k int :: 0 <= k && k < len(schema.PK) ==> str_lower(schema.PK[k].Column) == cols[k]
+//@   loop 2 invariant forall k int :: 0 <= k && k < len(schema.PK) ==> cols[k] == str_lower(schema.PK[k].Column)
+//@   loop 3 invariant len(cols) >= len(schema.PK)
+//@   loop 4 invariant len(res) == len(schema.Columns)
+//@   loop 4 invariant forall qi int :: 0 <= qi && qi < len(res) ==> res[qi] >= 0
+//@   loop 4 invariant forall qi int :: 0 <= qi && qi < $i ==> (forall k int :: PKFIRST(schema, qi, k) ==> res[qi] == k)
+//@   loop 5 invariant forall qm int :: 0 <= qm && qm < $i ==> !streq(cols[qm], n)
 
 //@ func sqlittle.select_
 //@   ghost-entry direct = false
